@@ -575,8 +575,23 @@ pub fn lookup_programs() -> Vec<Prog> {
     p.tables = vec![t_one];
     out.push(Prog { program: p, alph: vec![Some(vec![65535, 0])] });
     let mut p = Program::new("lookup_41_times", vec![Ty::B], (0..41).map(|_| Lookup(0, 0)).collect());
-    p.tables = vec![t_sq];
+    p.tables = vec![t_sq.clone()];
     out.push(Prog { program: p, alph: vec![Some(vec![0, 29])] });
+    // exact multiples of the LookupGate slot count (num_routed_wires / 2 = 40 at 80 routed wires, 12
+    // at 25, 68 at 136): the last lookup row is completely full and needs no padding
+    for n in [12usize, 24, 39, 40, 68, 80, 136] {
+        let mut p = Program::new(&format!("lookup_{n}_times"), vec![Ty::B, Ty::B], (0..n).map(|i| Lookup(i % 2, 0)).collect());
+        p.tables = vec![t_sq.clone()];
+        out.push(Prog { program: p, alph: vec![Some(vec![5, 29]), Some(vec![0, 7])] });
+    }
+    // and a second table after a full row
+    let mut p = Program::new("lookup_40_then_other_table", vec![Ty::B], {
+        let mut ops: Vec<Op> = (0..40).map(|_| Lookup(0, 0)).collect();
+        ops.push(Lookup(0, 1));
+        ops
+    });
+    p.tables = vec![t_sq, t_id];
+    out.push(Prog { program: p, alph: vec![Some(vec![0, 7])] });
     out
 }
 
